@@ -199,6 +199,7 @@ func genCut(seed uint64, prop string) *Scenario {
 type cutItem struct {
 	elec *[2]uint64
 	rec  *opRec
+	req  int // ordinal of the message the item travelled in
 }
 
 // seqModel simulates the server's sequential processing (including the
@@ -618,7 +619,7 @@ func (e *env) cutModify(script []*Step, cut *Step) {
 			id := *st.Elec
 			s.elec = id
 			s.mc.Send(&spb.ModifyRequest{ElectionId: uint128(id)})
-			items = append(items, cutItem{elec: &id})
+			items = append(items, cutItem{elec: &id, req: nsent})
 		case "c-ops":
 			ops := st.ops()
 			if len(ops) == 0 {
@@ -630,7 +631,7 @@ func (e *env) cutModify(script []*Step, cut *Step) {
 				rec := &opRec{op: op, sess: s.idx, seq: e.opSeq}
 				s.sent[op.GetId()] = rec
 				e.allOps[op.GetId()] = rec
-				items = append(items, cutItem{rec: rec})
+				items = append(items, cutItem{rec: rec, req: nsent})
 			}
 			s.mc.Send(&spb.ModifyRequest{Operation: ops})
 		}
@@ -649,13 +650,20 @@ func (e *env) cutModify(script []*Step, cut *Step) {
 	} else if e.sim.Choose("flt", 2) == 1 {
 		readAvail()
 	}
+	// the cut may land a few scheduling rounds later: the server has read some of what was sent (perhaps ahead
+	// of what it has processed) and is part-way through it
+	if d := e.sim.Choose("flt", 4); d > 0 {
+		simrt.Yield("cut-delay", d)
+	}
 	e.sim.Log("cut", fmt.Sprintf("%s after %d sent / %d read", cut.Note, nsent, nread))
 	if s.mc.Stream().QueuedToServer() > 0 {
 		e.probe("cut with client messages still in flight")
 	}
-	// A session that is cut off must not go on working: once the server has ended the RPC, at most the one
-	// operation that was being executed at that instant may still take effect. The installed entries are
-	// recorded at the instant the handler returns and compared, further down, with those at rest.
+	// A session that is cut off must not go on working: once the server has ended the RPC, at most the
+	// request that was being worked on at that instant may still be finished (a server may treat a request as
+	// one unit; the tree happens to stop after the operation in progress) - it must not go on to further
+	// requests. The installed entries are recorded at the instant the handler returns and compared, further
+	// down, with those at rest.
 	var atReturn Snapshot
 	var heldAtReturn map[uint64]bool
 	if cut.Note != "halfclose" {
@@ -732,15 +740,19 @@ func (e *env) cutModify(script []*Step, cut *Step) {
 			if from > rest[0] {
 				from = rest[0]
 			}
+			reqs := map[int]bool{}
 			for _, it := range items[from:rest[0]] {
 				if it.rec != nil {
 					late++
+					reqs[it.req] = true
 				}
 			}
 			switch {
+			case len(reqs) > 1:
+				e.report("C10", "departed-session-kept-working", "further requests of a session were worked on after its RPC had ended",
+					fmt.Sprintf("%s: the installed entries when the handler returned are explained by at most %d of the %d items sent, those at rest need at least %d (%d operations of %d different requests in between; the request in progress may have been finished)", what, atRet[len(atRet)-1], len(items), rest[0], late, len(reqs)), false)
 			case late > 1:
-				e.report("C10", "departed-session-kept-working", "operations of a session were started after its RPC had ended",
-					fmt.Sprintf("%s: the installed entries when the handler returned are explained by at most %d of the %d items sent, those at rest need at least %d (%d operations in between; one may have been in progress)", what, atRet[len(atRet)-1], len(items), rest[0], late), false)
+				e.probe("cut: the request in progress when the RPC ended was finished afterwards (several operations)")
 			case late == 1:
 				e.probe("cut: the operation in progress when the RPC ended completed afterwards")
 			default:
